@@ -14,6 +14,14 @@ func FloatValueApprox(fraction, margin float64) Value {
 			return false, false
 		}
 		fx, fy := x.Float(), y.Float()
+		if math.IsNaN(fx) || math.IsNaN(fy) {
+			// as for the default comparison, NaN is only equal to NaN
+			return math.IsNaN(fx) && math.IsNaN(fy), true
+		}
+		if math.IsInf(fx, 0) || math.IsInf(fy, 0) {
+			// nothing is a finite distance from an infinity: only the same infinity is within tolerance
+			return fx == fy, true
+		}
 		relMarg := fraction * math.Min(math.Abs(fx), math.Abs(fy))
 		return math.Abs(fx-fy) <= math.Max(margin, relMarg), true
 	}
